@@ -115,6 +115,22 @@ def prove(run, cfg, budget_ms):
                 per_fn[c.fid] = {'src': srch, 'n': len(obs), 'gen_s': round(time.time() - t, 2),
                                  'sidecar': sidecar}
                 allobs += obs
+                for x in getattr(mod, 'TRUSTED', []):
+                    if x not in run.trusted:
+                        run.trusted.append(x)
+            # lemmas of the sidecar (spec-level facts used as assumptions by the contracts)
+            for label, fn in getattr(ms, 'lemmas', []):
+                hyps, goal = fn()
+                fid = f'{ms.path}:lemma:{label}'
+                if fid in per_fn:
+                    continue
+                ob = symexec.Obligation(fid, 'lemma', label, list(hyps), goal, 0, [], {}, cfg.get('prop'))
+                ob.clause = label
+                ob.sidecar = sidecar
+                ob.contract = None
+                per_fn[fid] = {'src': 'lemma', 'n': 1, 'gen_s': 0.0, 'sidecar': sidecar}
+                allobs.append(ob)
+            if False:
                 if hasattr(mod, 'TRUSTED'):
                     for x in mod.TRUSTED:
                         if x not in run.trusted:
@@ -154,6 +170,13 @@ def prove(run, cfg, budget_ms):
 def handle_failed(run, ob, r, baseline, per_fn):
     """sat or unknown obligation -> replay / bounded search / baseline rule."""
     c = ob.contract
+    if c is None:
+        path = run.replay_path('obligation')
+        json.dump({'property': run.pid, 'fid': ob.fid, 'kind': 'lemma', 'label': ob.label,
+                   'solver': {'status': r['status'], 'reason': r['reason']}}, open(path, 'w'), indent=1)
+        run.violations.append({'fid': ob.fid, 'clause': ob.clause, 'kind': 'lemma', 'replay': path,
+                               'note': f'lemma `{ob.label}` is not discharged: {r["status"]}', 'input': False})
+        return
     rp = {'property': run.pid, 'sidecar': ob.sidecar, 'fid': ob.fid, 'obligation': oid_of(ob),
           'kind': ob.kind, 'clause': ob.clause, 'label': ob.label, 'line': ob.lineno,
           'solver': {'status': r['status'], 'backend': r['backend'], 'reason': r['reason'],
